@@ -37,33 +37,47 @@ func c20run(p *Plan, tier string, seed int64, replay *Replay) (*Agg, error) {
 	if tier == "thorough" {
 		nDur, nStr, ntEvery = 100000000, 50000000, 64
 	}
-	cmd := exec.Command("go", "test", "-overlay="+ovPath, "-run", "^TestVerifC20$", "-count=1", "-vet=off", "-timeout", "60m", "./slog/internal/times/")
-	cmd.Dir = repoDir
-	cmd.Env = []string{"PATH=" + os.Getenv("PATH"), "HOME=" + os.Getenv("HOME"), "GOWORK=off", "GOFLAGS=-mod=readonly", "GOPROXY=off", "GOSUMDB=off", "GOTOOLCHAIN=local",
-		"GOCACHE=" + goCache(), "GOMODCACHE=" + goModCache(),
-		"VERIF_C20_OUT=" + base, "VERIF_SEED=" + strconv.FormatInt(seed, 10), "VERIF_C20_DURATIONS=" + strconv.Itoa(nDur), "VERIF_C20_STRINGS=" + strconv.Itoa(nStr), "VERIF_C20_NT_EVERY=" + strconv.Itoa(ntEvery)}
-	j := &Job{Sub: "overlay", Mode: "test", Only: -1, base: base}
-	if replay != nil {
-		var cs struct {
-			Replay string `json:"replay"`
-		}
-		_ = json.Unmarshal(replay.Case, &cs)
-		if cs.Replay == "" {
-			return nil, fmt.Errorf("replay file carries no C20 case")
-		}
-		cmd.Env = append(cmd.Env, "VERIF_C20_ONLY="+cs.Replay)
-	}
-	st := time.Now()
-	out, err := cmd.CombinedOutput()
-	j.wall = time.Since(st)
-	os.WriteFile(base+".stderr", out, 0o644)
-	if err != nil {
-		if _, serr := os.Stat(base + ".report"); serr != nil {
-			return nil, fmt.Errorf("go test -overlay failed: %v: %s", err, firstN(string(out), 1500))
-		}
-	}
 	agg := newAgg()
-	collect(agg, j)
-	agg.ChildCount = 1
+	// the same workload in processes started with other locale settings (a tenth of the size): what a duration text
+	// looks like is not a matter of the environment
+	variants := [][]string{nil, {"LC_ALL=de_DE.ISO-8859-1", "LANG=de_DE.ISO-8859-1", "LC_CTYPE=de_DE.ISO-8859-1"}, {"LANG=en_US.ISO8859-15", "LC_CTYPE=en_US.ISO8859-15"}, {"LC_ALL=C", "LANG=POSIX"}}
+	if replay != nil {
+		variants = [][]string{replay.Env} // the environment the violating process ran in
+	}
+	for vi, extraEnv := range variants {
+		nD, nS := nDur, nStr
+		if vi > 0 {
+			base = filepath.Join(runDir, fmt.Sprintf("c20-locale%d", vi))
+			nD, nS = nDur/10, nStr/10
+		}
+		cmd := exec.Command("go", "test", "-overlay="+ovPath, "-run", "^TestVerifC20$", "-count=1", "-vet=off", "-timeout", "60m", "./slog/internal/times/")
+		cmd.Dir = repoDir
+		cmd.Env = []string{"PATH=" + os.Getenv("PATH"), "HOME=" + os.Getenv("HOME"), "GOWORK=off", "GOFLAGS=-mod=readonly", "GOPROXY=off", "GOSUMDB=off", "GOTOOLCHAIN=local",
+			"GOCACHE=" + goCache(), "GOMODCACHE=" + goModCache(),
+			"VERIF_C20_OUT=" + base, "VERIF_SEED=" + strconv.FormatInt(seed, 10), "VERIF_C20_DURATIONS=" + strconv.Itoa(nD), "VERIF_C20_STRINGS=" + strconv.Itoa(nS), "VERIF_C20_NT_EVERY=" + strconv.Itoa(ntEvery)}
+		cmd.Env = append(cmd.Env, extraEnv...)
+		j := &Job{Sub: "overlay", Mode: "test", Only: -1, base: base, Env: extraEnv}
+		if replay != nil {
+			var cs struct {
+				Replay string `json:"replay"`
+			}
+			_ = json.Unmarshal(replay.Case, &cs)
+			if cs.Replay == "" {
+				return nil, fmt.Errorf("replay file carries no C20 case")
+			}
+			cmd.Env = append(cmd.Env, "VERIF_C20_ONLY="+cs.Replay)
+		}
+		st := time.Now()
+		out, err := cmd.CombinedOutput()
+		j.wall = time.Since(st)
+		os.WriteFile(base+".stderr", out, 0o644)
+		if err != nil {
+			if _, serr := os.Stat(base + ".report"); serr != nil {
+				return nil, fmt.Errorf("go test -overlay failed: %v: %s", err, firstN(string(out), 1500))
+			}
+		}
+		collect(agg, j)
+		agg.ChildCount++
+	} // variants
 	return agg, nil
 }
